@@ -273,7 +273,7 @@ def validate_trace(spec_dir, module, cfg, trace_file, work, tag, timeout=1800, h
     raise Broken("TLC trace validation failed on %s (exit %d):\n%s\n...\n%s" % (module, rc, out[max(0, i - 200):i + 1800], out[-600:]))
 
 
-def validate_executions(spec_dir, module, cfg, projs, work, max_rejects=6, tag="p3", env_extra=None):
+def validate_executions(spec_dir, module, cfg, projs, work, max_rejects=6, tag="p3", env_extra=None, drop_if=None):
     """P3 over many executions (each a list of abstract events starting with a Reset event).
     Returns (accepted_count, events_accepted, rejects) with rejects = [(index, first_unmatched_event_index)],
     every rejection re-validated alone (repeat before reporting)."""
@@ -307,6 +307,12 @@ def validate_executions(spec_dir, module, cfg, projs, work, max_rejects=6, tag="
             for p in projs[badi]:
                 fh.write(json.dumps(p) + "\n")
         r1 = validate_trace(spec_dir, module, cfg, tf1, work, tag + "-s")
+        if not r1["accepted"] and drop_if is not None and drop_if(badi, (r1["matched"] or 1) - 1):
+            # the caller has recorded this event (a listed known finding): take it out and validate the REST of the
+            # execution, so that a listed finding cannot hide a different violation later in the same execution
+            del projs[badi][(r1["matched"] or 1) - 1]
+            pending = [badi] + pending[pos + 1:]
+            continue
         if not r1["accepted"]:
             rejects.append((badi, (r1["matched"] or 1) - 1))
         else:
